@@ -1,6 +1,8 @@
 package nfs
 
 import (
+	"crypto/rand"
+
 	"github.com/goose-lang/primitive/disk"
 
 	"github.com/mit-pdos/go-journal/buf"
@@ -10,6 +12,7 @@ import (
 	"github.com/mit-pdos/go-nfsd/dir"
 	"github.com/mit-pdos/go-nfsd/fstxn"
 	"github.com/mit-pdos/go-nfsd/inode"
+	"github.com/mit-pdos/go-nfsd/nfstypes"
 	"github.com/mit-pdos/go-nfsd/shrinker"
 	"github.com/mit-pdos/go-nfsd/super"
 	"github.com/mit-pdos/go-nfsd/util/stats"
@@ -20,8 +23,20 @@ type Nfs struct {
 	shrinkst *shrinker.ShrinkerSt
 	// support unstable writes
 	Unstable bool
+	// write verifier: differs between server instances, so that clients
+	// can detect that unstable writes may have been lost
+	verf nfstypes.Writeverf3
 	// statistics
 	stats [NUM_NFS_OPS]stats.Op
+}
+
+func mkWriteVerf() nfstypes.Writeverf3 {
+	var verf nfstypes.Writeverf3
+	_, err := rand.Read(verf[:])
+	if err != nil {
+		panic("mkWriteVerf")
+	}
+	return verf
 }
 
 func MakeNfs(d disk.Disk) *Nfs {
@@ -44,6 +59,7 @@ func MakeNfs(d disk.Disk) *Nfs {
 		fsstate:  st,
 		shrinkst: shrinker.MkShrinkerSt(st),
 		Unstable: true,
+		verf:     mkWriteVerf(),
 	}
 	if i.Kind == 0 {
 		nfs.makeRootDir()
